@@ -1,7 +1,7 @@
 """Arithmetic / comparison semantics over the value domain (exact reals, mathematical ints, numpy broadcasting)."""
 from fractions import Fraction
 import z3
-from .vals import SV, Opt, Inf, Vec, Mat, Unsupported, is_num, z3num, StrS, fresh, to_frac, EnumVal, EnumSym
+from .vals import PySet, SV, Opt, Inf, Vec, Mat, Unsupported, is_num, z3num, StrS, fresh, to_frac, EnumVal, EnumSym
 
 R = z3.RealSort()
 I = z3.IntSort()
@@ -380,6 +380,17 @@ class Ops:
             return False
         if isinstance(b, SV) and b.t.sort() == StrS:
             return False
+        if isinstance(a, PySet) and isinstance(b, PySet):
+            # both duplicate-free: equal as sets iff same size and every member of a is a member of b
+            if len(a) != len(b):
+                return False
+            r = True
+            for x in a:
+                m = False
+                for y in b:
+                    m = self.lor(m, self.eq(x, y))
+                r = self.land(r, m)
+            return r
         if isinstance(a, (list, tuple)) and isinstance(b, (list, tuple)):
             if type(a) is not type(b) or len(a) != len(b):
                 return False
